@@ -418,6 +418,11 @@ class Lemma:
         try:
             for leaf in leaves:
                 if leaf.tag is not None:
+                    if getattr(self, 'return_protected', False) and leaf.kind == 'term' and leaf.tgt == 'nonlocal_preempt' and leaf.tag[0] == 'assumed-bot' \
+                            and leaf.tag[1].kind == 'ijump' and [e[:2] for e in leaf.st.trace[len(leaf.tag[1].st.trace):]] == [('flag', 'nonlocal_preempt'), ('flag', 'error')]:
+                        # README "Preemptive defeat functions": if what follows the return of a preemptive defeat function leads to defeat,
+                        # safety was not provided: the run ends with the nonlocal_preempt error instead (the return itself is the untagged leaf)
+                        continue
                     if leaf.kind != 'bot':
                         raise SP.Mismatch(f'if the continuation halted, the emitted code would {leaf.kind} {leaf.tgt} instead of being defeat')
                     continue
@@ -510,7 +515,7 @@ class Lemma:
             e = S.trace[S.pos]
             raise SP.Mismatch(f'emitted code performs an extra {e[0]} {e[1] if e[0] != "child" else e[1].node!r} the source semantics does not')
 
-    def inv_at_exit(self, leaves, props, clause='INV', ap_delta=None, defeat_same=True, kinds=('exit',)):
+    def inv_at_exit(self, leaves, props, clause='INV', ap_delta=None, defeat_same=True, kinds=('exit',), ap_check=True):
         """machine invariant at normal exits: fp, try_fp, defeat unchanged, ap = entry ap (+ delta)"""
         t0 = time.time()
         items = []
@@ -519,7 +524,8 @@ class Lemma:
             if l.kind in kinds and l.tag is None:
                 r = l.st.regs
                 items.append((l.cond, 'fp unchanged at exit', r['fp'] == E['fp']))
-                items.append((l.cond, 'ap as at entry (plus what the construct allocates)', r['ap'] == E['ap'] + (ap_delta if ap_delta is not None else 0)))
+                if ap_check:
+                    items.append((l.cond, 'ap as at entry (plus what the construct allocates)', r['ap'] == E['ap'] + (ap_delta if ap_delta is not None else 0)))
                 items.append((l.cond, 'try_fp unchanged at exit', r['try_fp'] == E['try_fp']))
                 if defeat_same:
                     items.append((l.cond, 'defeat unchanged at exit', r['defeat'] == E['defeat']))
@@ -739,10 +745,32 @@ class Lemma:
                 # declared variables: their accessors read back the values the source semantics bound
                 for name, val in S.newvars.items():
                     acc = cg.local_vars.get(name)
-                    if acc is None or isinstance(acc, ArrayRef):
+                    if acc is None:
+                        raise SP.Mismatch(f'declared variable {name} is not in scope after the statements')
+                    if isinstance(acc, ArrayRef) != isinstance(val, SP.ArrayVal):
+                        raise SP.Mismatch(f'declared variable {name}: array reference expected iff the source declares an array')
+                    if isinstance(acc, ArrayRef):
+                        # an array variable is a reference: (length, origin) words in the frame denote the array the source semantics bound
+                        ov, s1 = self.read_accessor(acc.origin, leaf); lv, s2 = self.read_accessor(acc.length, leaf)
+                        extra_safety.extend(s1 + s2)
+                        S.require_eq(ov, val.origin, f'origin of declared array {name}')
+                        S.require_eq(lv, val.length, f'length of declared array {name}')
+                        if (acc.section == asm.Section.CONST) != (val.section == 'const'):
+                            raise SP.Mismatch(f'declared array {name}: storage section of the reference differs from where the array lives')
+                        if acc.type.access == AccessMode.RW and not val.writable:
+                            raise SP.Mismatch(f'declared array {name}: writable reference to a read-only array')
                         continue
                     v, saf = self.read_accessor(acc, leaf); extra_safety.extend(saf)
                     S.require_eq(v, val, f'value of declared variable {name}')
+                for arr, nbytes, known in S.fresh_arrays:
+                    if not known:
+                        continue
+                    nb = z3.simplify(nbytes)
+                    for j in range(nb.as_long()):
+                        S.require_eq(S.load(leaf.st.mem, arr.origin + j, 1), S.load(S.mem, arr.origin + j, 1), f'byte {j} of a newly created array')
+                if S.fresh_arrays:
+                    S.require(r['ap'] == E['ap'] + S.alloc, 'ap is not advanced by exactly the size of the arrays the statements created')
+                    self.allocating = True
                 S.sync(leaf.st, 'at exit')
             elif o.kind == 'return':
                 S.require_eq(leaf.tgt, self.ra_value(S), 'return target is the RA word of this activation')
@@ -761,8 +789,10 @@ class Lemma:
                 S.require(r['ap'] == self.ap_at_loop_restore, f'{o.kind} does not release exactly the arrays allocated since the loop\'s restore point')
                 S.require(r['defeat'] == self.loop_defeat_value, f'defeat is not restored to the loop\'s defeat at {o.kind}')
                 S.sync(leaf.st, f'at {o.kind}')
+        self.allocating = False
         self.simulate(leaves, program, compare, P['SIM'])
-        self.inv_at_exit([l for l in leaves if l.kind == 'exit' and l.tgt == '<end>'], P['INV'], ap_delta=self.expected_ap_delta)
+        # (when the statements create arrays, ap at exit is checked per leaf against the sizes the source semantics allocated, above)
+        self.inv_at_exit([l for l in leaves if l.kind == 'exit' and l.tgt == '<end>'], P['INV'], ap_delta=self.expected_ap_delta, ap_check=not self.allocating)
         self.nobot(leaves, P['NOBOT'])
         if not self.unchecked:
             self.prove_all('SAFE', eng.safety + extra_safety, P['SAFE'])
